@@ -11,7 +11,7 @@
    segments [A-Za-z][0-9A-Za-z_]* — outside it Go's TypedName.Parts panics with InvalidCharactersInName). *)
 From Coq Require Import NArith Bool List.
 From PcoreV Require Import Model.Base Model.Loader Model.LoaderSpec Model.LoaderAdd Model.LoaderCtx Proofs.LoaderNames Proofs.LoaderProofs
-  Proofs.LoaderCorollaries Proofs.LoaderAddProofs Proofs.LoaderAddScoped Proofs.LoaderAddCorollaries Proofs.LoaderCtxProofs.
+  Proofs.LoaderCorollaries Proofs.LoaderAddProofs Proofs.LoaderAddScoped Proofs.LoaderAddCorollaries Proofs.LoaderCtxProofs Proofs.LoaderDeclProofs.
 Import ListNotations.
 
 (* Refinement: for EVERY history of construct / define / load / load-entry / get-entry / has-entry / discover
@@ -389,3 +389,113 @@ Proof.
   split; [vm_compute; reflexivity|]. split; [vm_compute; reflexivity|]. split; [|vm_compute; reflexivity].
   vm_compute. split; reflexivity.
 Qed.
+
+(* ---------------------------------------------------------------------------------------------- *)
+(* The declaration route (Model/LoaderAdd.v `XDeclare`, `compile_decl`): types handed to px.RegisterResolvableType
+   (px.NewObjectType, px.NewGoObjectType, px.NewGoType register what they make) are bound by the resolveResolvables of the
+   next pcore.Do / pcore.RootContext - internal/context.go:183 SetEntry of every declared type in the order of
+   declaration, then resolveTypes.  Histories with XDeclare are histories of `xop`: C12_addtypes_refines,
+   C12_addtypes_state_refines, C12_addtypes_no_fault, C12_addtypes_write_once and C12_ctx_fixed above cover them.  The
+   theorems below say that it is a definition route like SetEntry and px.AddTypes - same calls, same verdicts - and state
+   the write-once clause for it. *)
+
+(* types that are neither object types nor type sets: in every state the declaration route does what px.AddTypes does *)
+Theorem C12_declare_is_addtypes :
+  forall cfg st l ts, forallb is_plain ts = true -> xstep cfg st (XDeclare l ts) = xstep cfg st (XAddTypes l ts).
+Proof. exact declare_is_addtypes. Qed.
+Print Assumptions C12_declare_is_addtypes.
+
+(* one such type: in every state the declaration is the SetEntry call - the same state afterwards, the same verdict *)
+Theorem C12_declare_is_define :
+  forall cfg st l name v, l < length st ->
+    xstep cfg st (XDeclare l [MPlain name v]) =
+    (fst (step cfg st (ODefine l (mkTn (cfg_auth cfg) ns_type name) v)),
+     XA (match snd (step cfg st (ODefine l (mkTn (cfg_auth cfg) ns_type name) v)) with RDefined _ => AOk | o => aout_of o end)).
+Proof. exact declare_is_define. Qed.
+Print Assumptions C12_declare_is_define.
+
+(* write-once (the seeded change C12-m7 falsifies this): after ANY history, when the first declared type - of any kind -
+   names an entry that the loader receiving l's definitions has bound to a value that is neither identical nor equal, the
+   call is rejected with AttemptToRedefineType (both are types) / AttemptToRedefine, the bindings of all loaders stay as
+   they are and none of the other declarations is bound *)
+Theorem C12_declare_redefine :
+  forall cfg xs l t ts old,
+    cfg_wf cfg = true -> forallb (xop_wf cfg) (xs ++ [XDeclare l (t :: ts)]) = true ->
+    l < length (fst (xrun cfg xs)) ->
+    spec_own_binding (abs (fst (xrun cfg xs))) l (norm (mkTn (cfg_auth cfg) ns_type (mt_name t))) = Some old ->
+    val_same old (mt_val t) || val_equals old (mt_val t) = false ->
+    abs (fst (xrun cfg (xs ++ [XDeclare l (t :: ts)]))) = abs (fst (xrun cfg xs)) /\
+    xresult_after cfg xs (XDeclare l (t :: ts)) =
+      XA (AErr (if vty old && vty (mt_val t) then ERedefineType else ERedefine)).
+Proof. exact declare_redefine. Qed.
+Print Assumptions C12_declare_redefine.
+
+(* ... with an identical or equal value the declaration is a no-op *)
+Theorem C12_declare_equal :
+  forall cfg xs l name v old,
+    cfg_wf cfg = true -> forallb (xop_wf cfg) (xs ++ [XDeclare l [MPlain name v]]) = true ->
+    l < length (fst (xrun cfg xs)) ->
+    spec_own_binding (abs (fst (xrun cfg xs))) l (norm (mkTn (cfg_auth cfg) ns_type name)) = Some old ->
+    val_same old v || val_equals old v = true ->
+    abs (fst (xrun cfg (xs ++ [XDeclare l [MPlain name v]]))) = abs (fst (xrun cfg xs)) /\
+    xresult_after cfg xs (XDeclare l [MPlain name v]) = XA AOk.
+Proof. exact declare_equal. Qed.
+Print Assumptions C12_declare_equal.
+
+(* ... and when the entry is not bound (also after failed lookups: the state is the one with the cached misses
+   forgotten) the declaration binds it in the loader that receives l's definitions *)
+Theorem C12_declare_fresh :
+  forall cfg xs l name v tg,
+    cfg_wf cfg = true -> forallb (xop_wf cfg) (xs ++ [XDeclare l [MPlain name v]]) = true ->
+    l < length (fst (xrun cfg xs)) ->
+    def_target (S l) (abs (fst (xrun cfg xs))) l = Some tg ->
+    assoc (map_key (norm (mkTn (cfg_auth cfg) ns_type name))) (own_binds (abs (fst (xrun cfg xs))) tg) = None ->
+    xresult_after cfg xs (XDeclare l [MPlain name v]) = XA AOk /\
+    abs (fst (xrun cfg (xs ++ [XDeclare l [MPlain name v]]))) =
+      set_binds (abs (fst (xrun cfg xs))) tg
+        (own_binds (abs (fst (xrun cfg xs))) tg ++ [(map_key (norm (mkTn (cfg_auth cfg) ns_type name)), v)]).
+Proof. exact declare_fresh. Qed.
+Print Assumptions C12_declare_fresh.
+
+(* the calls of the declaration route, for declared types of every kind: they refer to the context's loader and to the
+   type-set loaders the same call made; the DoWithLoader calls are nested and each is left again *)
+Theorem C12_declare_calls :
+  forall auth ts, scoped 0 (compile_decl auth ts) = true /\ track [] (compile_decl auth ts) = Some [].
+Proof. intros auth ts. split; [exact (compile_decl_scoped auth ts)|exact (compile_decl_track auth ts)]. Qed.
+Print Assumptions C12_declare_calls.
+
+(* however the binding of the declarations ends, the context holds the loader it held before *)
+Theorem C12_declare_ctx_restored :
+  forall (S : Type) (stp : S -> op -> S * out) addn len L base s auth ts,
+    let r := ctx_exec stp addn len L base s [] (compile_decl auth ts) in
+    hd L (snd r) = L /\ fst r = exec stp addn len L base s (compile_decl auth ts).
+Proof. exact @ctx_exec_restores_decl. Qed.
+Print Assumptions C12_declare_ctx_restored.
+
+(* Non-vacuity: alias types T (two equal values, one different one, also under the name in another letter case) and U
+   declared through loader 2 of the chain 1 <- 2 <- 3: first declaration, equal one, a failed lookup of U followed by a
+   list of declarations whose second member is the different T - U is bound, the call is rejected, W is not bound. *)
+Definition s_T : str := [84]%N.
+Definition s_t : str := [116]%N.
+Definition s_U : str := [85]%N.
+Definition s_W : str := [87]%N.
+Definition n_T := mkTn ex_auth ns_type s_T.
+Definition n_U := mkTn ex_auth ns_type s_U.
+Definition n_W := mkTn ex_auth ns_type s_W.
+Definition t9 := mkV 9 (Some 20%N) true.
+Definition ex_decl : list xop :=
+  [XOp ONewDep; XOp (ONewParented 1); XOp (ONewParented 2);
+   XDeclare 2 [MPlain s_T t8]; XDeclare 2 [MPlain s_t t9]; XOp (OLoad 3 n_U)].
+
+Example C12_declare_nonvacuous :
+  forallb (xop_wf ex_cfg) (ex_decl ++ [XDeclare 2 [MPlain s_U tzed; MPlain s_t t10; MPlain s_W tbus]]) = true /\
+  xouts ex_cfg (ex_decl ++ [XDeclare 2 [MPlain s_U tzed; MPlain s_t t10; MPlain s_W tbus];
+                            XOp (OLoad 3 n_U); XOp (OLoad 3 n_T); XOp (OLoad 3 n_W); XDeclare 3 [MPlain s_T t10]; XOp (OLoad 3 n_T);
+                            XDeclare 7 [MPlain s_T t10]]) =
+    [XR (RNew 1); XR (RNew 2); XR (RNew 3); XA AOk; XA AOk; XR (RFound None);
+     XA (AErr ERedefineType); XR (RFound (Some tzed)); XR (RFound (Some t8)); XR (RFound None); XA AOk; XR (RFound (Some t8));
+     XA ABadLoader] /\
+  spec_own_binding (abs (fst (xrun ex_cfg ex_decl))) 2 (norm (mkTn (cfg_auth ex_cfg) ns_type s_t)) = Some t8 /\
+  val_same t8 t10 || val_equals t8 t10 = false /\ val_same t8 t9 || val_equals t8 t9 = true /\
+  compile_decl ex_auth [ex_set] = IAct (ASet HL (mkTn ex_auth ns_type s_foo) tfoo) :: removelast (compile ex_auth [ex_set]).
+Proof. vm_compute. repeat split; reflexivity. Qed.
